@@ -6,36 +6,40 @@ Import ListNotations.
 Local Open Scope N_scope.
 
 (* The full statement: for every configuration with the inode-number counter, every history
-   (any host answers) from a fresh server, the count of every inode number equals the client's
-   ledger (entries returned minus counts forgotten, never below zero, root exempt). *)
+   (any host answers) from a fresh server with fewer than 2^64-3 lookups, the count of every
+   non-root inode number equals the client's ledger (entries returned minus counts forgotten,
+   never below zero; the root's count is of no consequence: it can never be forgotten).
+   It was refuted by defect D9 until the fix cecedb6; now it is a theorem. *)
 Definition C08_full : Prop := refines_full.
+Theorem C08_full_holds : C08_full.
+Proof. exact refines_full_holds. Qed.
 
-(* refuted on the current tree by defect D9 (create on an existing name that cannot be
-   opened keeps the reference taken by do_lookup but answers with an error) *)
-Theorem C08_refuted : ~ C08_full.
-Proof. exact refines_full_refuted. Qed.
-
-(* everything outside that class: *)
-Theorem C08_partial : forall c root h,
-  uhi c = false -> 2 + total_allocs h <= U64MAX -> no_leak c (fresh c root) h ->
+Theorem C08_history : forall c root h,
+  uhi c = false -> 2 + total_allocs h < U64MAX ->
   let r := run c (fresh c root) h in
   I1 (snd r) /\ IRoot (snd r) /\ ~ In RSpin (fst r) /\
-  forall j, refs_of (snd r) j = spec_run (refs_of (fresh c root)) h (fst r) j.
+  forall j, j <> ROOT_ID -> refs_of (snd r) j = spec_run (refs_of (fresh c root)) h (fst r) j.
 Proof. exact run_refines_counter. Qed.
 
 (* any numbering mode (also use_host_ino), from any state satisfying the invariant, given that
-   the numbers do_lookup allocates are not in use (proved for the counter modes: C08_counter_fresh) *)
-Theorem C08_refines_any_mode_partial : forall c h s,
-  I1 s -> IRoot s -> hist_fresh c s h -> no_leak c s h ->
+   the numbers do_lookup allocates are not in use (proved for the counter modes: C08_counter_fresh;
+   still a hypothesis for use_host_ino, hence _partial) *)
+Theorem C08_refines_any_mode_partial : forall c h s b,
+  I1 s -> IRoot s -> hist_fresh c s h -> RB s b -> 2 <= b -> b + total_allocs h < U64MAX ->
   I1 (snd (run c s h)) /\ IRoot (snd (run c s h)) /\ ~ In RSpin (fst (run c s h)) /\
-  forall j, refs_of (snd (run c s h)) j = spec_run (refs_of s) h (fst (run c s h)) j.
+  forall j, j <> ROOT_ID -> refs_of (snd (run c s h)) j = spec_run (refs_of s) h (fst (run c s h)) j.
 Proof. exact run_refines. Qed.
 
+(* one request, every number including the root; [create_undo] names the number whose reference a
+   failing create-on-existing took and gave back *)
 Theorem C08_step_refines : forall c s o,
-  I1 s -> op_fresh c s o -> create_leaks c s o = false ->
+  I1 s -> op_fresh c s o ->
   I1 (snd (step c s o)) /\ fst (step c s o) <> RSpin /\
-  forall j, refs_of (snd (step c s o)) j = spec_step (refs_of s) o (fst (step c s o)) j.
+  forall j, refs_of (snd (step c s o)) j =
+            spec_step_u (refs_of s) o (fst (step c s o)) (create_undo c s o) j.
 Proof. exact step_refines. Qed.
+Theorem C08_undo_neutral : forall f i j, j <> ROOT_ID -> f j < U64MAX -> spec_forget (spec_give f i) i 1 j = f j.
+Proof. exact undo_neutral. Qed.
 
 Theorem C08_counter_fresh : forall c s o,
   uhi c = false -> Bnd s -> next_inode s + allocs o <= U64MAX ->
@@ -90,21 +94,24 @@ Theorem C08_lookup_returns_bound_number_partial : forall c s t s' i j,
 Proof. exact lookup_returns_bound_number. Qed.
 
 (* witnesses / non-vacuity *)
-Example C08_d9_witness :
+Example C08_d9_fixed_witness :
   fst (run d9_cfg (fresh d9_cfg d9_root) d9_hist) = [RErr EBADF] /\
-  refs_of (snd (run d9_cfg (fresh d9_cfg d9_root) d9_hist)) 2 = 1 /\
-  create_leaks d9_cfg (fresh d9_cfg d9_root) (OCreate 1 (Some d9_fifo) true false) = true.
+  refs_of (snd (run d9_cfg (fresh d9_cfg d9_root) d9_hist)) 2 = 0 /\
+  valid (snd (run d9_cfg (fresh d9_cfg d9_root) d9_hist)) 2 = false /\
+  create_undo d9_cfg (fresh d9_cfg d9_root) (OCreate 1 (Some d9_fifo) true false) = Some 2.
 Proof. exact d9_witness_shape. Qed.
 Example C08_nonvacuous :
-  no_leak d9_cfg (fresh d9_cfg d9_root) ex_hist /\ 2 + total_allocs ex_hist <= U64MAX /\
+  2 + total_allocs ex_hist < U64MAX /\
   fst (run d9_cfg (fresh d9_cfg d9_root) ex_hist) =
-    [RIno 2; RIno 2; REnts [(2, true); (3, false)]; RUnit; RIno 2; RUnit] /\
+    [RIno 2; RIno 2; REnts [(2, true); (3, false)]; RUnit; RIno 2; RErr EBADF; RUnit] /\
   refs_of (snd (run d9_cfg (fresh d9_cfg d9_root) ex_hist)) 2 = 0 /\
+  refs_of (snd (run d9_cfg (fresh d9_cfg d9_root) ex_hist)) 3 = 0 /\
   refs_of (snd (run d9_cfg (fresh d9_cfg d9_root) ex_hist)) 1 = 2.
 Proof. exact ex_hist_ok. Qed.
 
-Print Assumptions C08_refuted.
-Print Assumptions C08_partial.
+Print Assumptions C08_full_holds.
+Print Assumptions C08_history.
+Print Assumptions C08_undo_neutral.
 Print Assumptions C08_refines_any_mode_partial.
 Print Assumptions C08_step_refines.
 Print Assumptions C08_counter_fresh.
